@@ -12,6 +12,14 @@ let rd_ccfg = function
   | v -> raise (Bad ("bad cookie cfg " ^ to_string v))
 
 let rd_cookies v = rd_list (rd_pair rd_str rd_str) v
+
+let rd_bign v = (match rd_z v with BinNums.Z0 -> BinNums.N0 | BinNums.Zpos p -> BinNums.Npos p | BinNums.Zneg _ -> raise (Bad "negative address"))
+
+let rd_breq = function
+  | L [m; uri; fwd; prox; remote; iph] ->
+    { Bypass.b_method = rd_str m; b_request_uri = rd_str uri; b_fwd_uri = rd_str fwd; b_proxied = rd_bool prox;
+      b_remote_addr = rd_str remote; b_ip_header = rd_str iph }
+  | v -> raise (Bad ("bad breq " ^ to_string v))
 let wr_headers l = wr_list (fun c -> wr_str (Cookies.cookie_string c)) l
 
 let register (reg : string -> (Sx.t list -> Sx.t) -> unit) : unit =
@@ -81,6 +89,52 @@ let register (reg : string -> (Sx.t list -> Sx.t) -> unit) : unit =
       | [cfg; host; name; value; exp] ->
         wr_str (Cookies.cookie_string (Cookies.make_cookie (rd_ccfg cfg) (rd_str host) (rd_str name) (rd_str value) (rd_z exp)))
       | _ -> raise (Bad "make_cookie_string arity"));
+  (* ---- Bypass ---- *)
+  reg "parse_route" (function
+      | [spec] -> let ((m, n), p) = Bypass.parse_route (rd_str spec) in L [wr_str m; wr_bool n; wr_str p]
+      | _ -> raise (Bad "parse_route arity"));
+  reg "allowed_route" (function
+      | [routes; mt; pt; rq] ->
+        let routes = rd_list (function
+            | L [m; n; i] -> { Bypass.r_method = rd_str m; r_negate = rd_bool n; r_regex = rd_nat i }
+            | v -> raise (Bad ("bad route " ^ to_string v))) routes in
+        let mtab = Hashtbl.create 8 in
+        List.iter (function
+            | L [i; p; b] -> Hashtbl.replace mtab (rd_int i, string_of_str (rd_str p)) (rd_bool b)
+            | v -> raise (Bad ("bad match entry " ^ to_string v))) (match mt with L l -> l | _ -> []);
+        let matches i p = (match Hashtbl.find_opt mtab (int_of_nat i, string_of_str p) with
+            | Some b -> b | None -> raise (Bad "regex oracle asked about an unlisted path")) in
+        let ptab = Hashtbl.create 4 in
+        List.iter (function
+            | L [u; r] -> Hashtbl.replace ptab (string_of_str (rd_str u)) (rd_opt rd_str r)
+            | v -> raise (Bad ("bad parse entry " ^ to_string v))) (match pt with L l -> l | _ -> []);
+        let parse u = (match Hashtbl.find_opt ptab (string_of_str u) with
+            | Some r -> r | None -> raise (Bad "uri oracle asked about an unlisted uri")) in
+        wr_bool (Bypass.is_allowed_route matches parse routes (rd_breq rq))
+      | _ -> raise (Bad "allowed_route arity"));
+  reg "netset_has" (function
+      | [nets; ipv] ->
+        let nets = rd_list (function
+            | L [a; o] -> { Bypass.n_addr = rd_bign a; n_ones = rd_n o }
+            | v -> raise (Bad ("bad net " ^ to_string v))) nets in
+        wr_bool (Bypass.set_has (Bypass.build_set nets) (rd_bign ipv))
+      | _ -> raise (Bad "netset_has arity"));
+  reg "net_canonical" (function
+      | [a; o] -> wr_bool (Bypass.canonical { Bypass.n_addr = rd_bign a; n_ones = rd_n o })
+      | _ -> raise (Bad "net_canonical arity"));
+  reg "trusted_ip" (function
+      | [nets; pt; use_header; rq] ->
+        let nets = rd_list (function
+            | L [a; o] -> { Bypass.n_addr = rd_bign a; n_ones = rd_n o }
+            | v -> raise (Bad ("bad net " ^ to_string v))) nets in
+        let ptab = Hashtbl.create 4 in
+        List.iter (function
+            | L [u; r] -> Hashtbl.replace ptab (string_of_str (rd_str u)) (rd_opt rd_bign r)
+            | v -> raise (Bad ("bad parse entry " ^ to_string v))) (match pt with L l -> l | _ -> []);
+        let parse u = (match Hashtbl.find_opt ptab (string_of_str u) with
+            | Some r -> r | None -> None) in
+        wr_bool (Bypass.is_trusted_ip parse (Bypass.build_set nets) (rd_bool use_header) (rd_breq rq))
+      | _ -> raise (Bad "trusted_ip arity"));
   reg "split_host_port" (function
       | [x] -> wr_opt (wr_pair wr_str wr_str) (NetAddr.split_host_port (rd_str x))
       | _ -> raise (Bad "split_host_port arity"));
